@@ -6,10 +6,12 @@
    length, provided equal boards carry equal piece hashes - which C04 proves for boards whose hash is the
    from-scratch one (C15_threefold, C15_equal_boards_equal_hash), hence for every history of boards reached
    from a parsed board / the standard position by accepted moves (C15_threefold_reachable; side conditions of
-   `Reach`: the mover has a king).  Also decided per run by driving the real cdylib through its stable interface with the abstract history
+   `Reach`: the mover has a king; discharged for `Reachable` = standard / parsed / built / moved without side condition:
+   C15_threefold_reachable_all), and the legality gate is the rules' legality on every reachable board
+   (C15_gate_is_rules_legality).  Also decided per run by driving the real cdylib through its stable interface with the abstract history
    spec as monitor.  Interpretation (DESIGN.md): the position handed to set_board is not itself counted. *)
 From Coq Require Import NArith List Bool.
-From Chess Require Import base.Types model.Board model.MoveGen model.Apply model.Search model.Bot proofs.HashFacts proofs.BotFacts spec.IterSpec proofs.InvFacts proofs.Combine.
+From Chess Require Import base.Types model.Board model.MoveGen model.Apply model.Search model.Bot proofs.HashFacts proofs.BotFacts spec.IterSpec proofs.InvFacts proofs.Combine spec.Rules proofs.Reachable proofs.ReachableMore.
 Import ListNotations.
 Local Open Scope N_scope.
 
@@ -42,3 +44,12 @@ Theorem C15_threefold_reachable : forall bs, (forall x, In x bs -> Reach x) ->
   snd (add_all [] bs) = expected_flags [] bs.
 Proof. exact threefold_reachable. Qed.
 Print Assumptions C15_threefold_reachable.
+
+Theorem C15_threefold_reachable_all : forall bs, (forall x, In x bs -> Reachable x) ->
+  snd (add_all nil bs) = expected_flags nil bs.
+Proof. exact threefold_reachable_boards. Qed.
+Print Assumptions C15_threefold_reachable_all.
+
+Theorem C15_gate_is_rules_legality : forall b m, Reachable b -> is_legal b m = is_legal_move (Board.abs b) m.
+Proof. exact is_legal_rules_reachable. Qed.
+Print Assumptions C15_gate_is_rules_legality.
